@@ -327,6 +327,9 @@ class C09(Check):
         self.q_excluded_by_pattern = 0
         self.q_link_spelled = 0
         self.q_link_member = 0
+        self.guard_true = 0
+        self.guard_true_differs = 0
+        self.guard_false_differs = 0
         self.q_respelled = 0
         self.q_respelled_member = 0
         self.class_hits = {1: 0, 2: 0}
@@ -565,6 +568,12 @@ class C09(Check):
                     self.hist["kinds"][tag] = self.hist["kinds"].get(tag, 0) + 1
         self.q_total += len(queries)
         self.q_member += sum(1 for x in ans[3] if x == 1)
+        for m, x, c in zip(ans[1], ans[3], ans[6]):
+            if c in (1, 2):
+                self.guard_true += 1
+                self.guard_true_differs += m != x
+            elif m != x and ans[8] == 0 and ans[5]:
+                self.guard_false_differs += 1        # must stay 0: C09_parent_rule_partial
         plain_paths = {"/" + "/".join(e[0]) for e in entries if not isinstance(e[1], list)}
         link_paths = ["/" + "/".join(e[0]) for e in entries if isinstance(e[1], list)]
         for q, x in zip(queries, ans[3]):
@@ -630,6 +639,8 @@ class C09(Check):
         return {"unsupported_pattern_cases": self.n_unsupported, "constructor_error_cases": self.n_ctor,
                 "input_distribution": self.hist, "queries_total": self.q_total, "queries_member": self.q_member,
                 "queries_not_the_real_path": self.q_respelled, "queries_not_the_real_path_members": self.q_respelled_member,
+                "class_predicate_true_queries": self.guard_true, "class_predicate_true_and_M_differs_from_S": self.guard_true_differs,
+                "class_predicate_false_and_M_differs_from_S": self.guard_false_differs,
                 "queries_through_a_link": self.q_link_spelled, "queries_through_a_link_members": self.q_link_member,
                 "known_class_hits": {"parent-dir-reinclude": self.class_hits[1], "parent-dir-renegated": self.class_hits[2]},
                 "spec_oracle": "git check-ignore --no-index --stdin -z, patterns in .git/info/exclude",
